@@ -174,7 +174,9 @@ NoPanic == pc # "panic"
 InRange == /\ tier = "long" /\ pc \in {"loop", "done"} => crit < Len(n)
            /\ offset \in 0..Len(h) /\ index \in 0..Len(h)
            /\ start >= 0 /\ (dec \in {"hit", "miss"} => start = index - crit)
-Correct == pc = "done" => res = S!Find(h, n)
+\* h and n are BYTE strings here, so the position of the first occurrence in the sequence
+\* (StrOps!FindIdx) is the byte offset StrOps!Find speaks of; over {a, b} the two coincide
+Correct == pc = "done" => res = S!FindIdx(h, n) /\ res = S!Find(h, n)
 Bounded == steps <= Len(h) + 1
 \* the variant |h| - offset decreases with every iteration that does not return
 Variant == [][pc = "loop" /\ pc' = "loop" => offset' > offset]_vars
